@@ -14,6 +14,8 @@ package rootmulti
 //@ ghost sub.mounted (Array Iface Bool)
 //@ ghost sub.idver (Array Iface Int)
 //@ ghost sub.idhash (Array Iface Slice)
+//@ ghost mp.calls Int
+//@ ghost mp.ver Int
 //@ ghost wb.latest Int
 //@ ghost wb.cinfo Int
 //@ ghost disk.latest Int
@@ -78,11 +80,14 @@ package rootmulti
 //@   ensures [onlynew] forall v int :: v != id.Version ==> disk.cinfo[v] == old(disk.cinfo[v])
 
 // C12: an IAVL substore is loaded with exactly the multistore's pruning options.
+// C13: ... and at exactly the version the commit info names for it (`id`), not at whatever the multistore's own
+// lastCommitID happens to be while the substores are being loaded (seed C13e)
 //@ func (rs *Store) loadCommitStoreFromParams(key types.StoreKey, id types.CommitID, params storeParams) (store types.CommitStore, err error)
-//@   props C12
+//@   props C12 C13
 //@   may_panic
 //@   modifies mdb.size, tree.cur
 //@   ensures [policy] params.typ == 2 && err == nil ==> unbox(store, "*store/iavl.Store").numRecent == rs.pruningOpts.keepRecent && unbox(store, "*store/iavl.Store").storeEvery == rs.pruningOpts.keepEvery
+//@   ensures [atversion@C13] params.typ == 2 && err == nil ==> tree.cur == id.Version
 
 // C11 (used by baseapp.txContext): setting the tracing context returns the very same multistore
 //@ func (rs *Store) SetTracingContext(tc types.TraceContext) (r types.MultiStore)
@@ -105,13 +110,19 @@ package rootmulti
 //@   props C14
 //@   may_panic
 //@   modifies everything
-//@   keeps q.
+//@   keeps q. mp.
 //@   ensures [once] q.calls <= old(q.calls) + 1
+// C14: the multistore half of a proof is built from the commit info of the very height the substore answered at
+// (res.Height) - the store infos of any other version hash to another app hash (seed C14d)
+//@   ensures [proof-height] mp.calls <= old(mp.calls) + 1 && (mp.calls == old(mp.calls) + 1 ==> q.calls == old(q.calls) + 1 && req.Prove && mp.ver == q.resheight)
 //@   ensures [forwarded] q.calls == old(q.calls) + 1 ==> q.height == req.Height && q.data == req.Data && q.prove == req.Prove
 //@   ensures [passed] q.calls == old(q.calls) + 1 && !req.Prove ==> res.Height == q.resheight && res.Value == q.resvalue
 
 // ASSUMED (amino): the commit info stored under s/<ver> carries version ver
+// mp.calls counts the look-ups, mp.ver is the version asked for last
 //@ assumed func getCommitInfo(db dbm.DB, ver int64) (ci commitInfo, err error)
+//@   modifies mp.calls, mp.ver
+//@   ensures mp.calls == old(mp.calls) + 1 && mp.ver == ver
 //@   ensures err == nil ==> ci.Version == ver
 
 // C12: loading a version either succeeds - the store then reports exactly that version - or fails and leaves the
